@@ -140,6 +140,8 @@ class ScanOracles(LinOracles):
             if i is None or i + self.p > self.m:
                 raise Diverge("p-mer read at %r of a sequence of length %d" % (args[1], self.m))
             return Opaque("P", {"pmer"}, {"at": i, "bases": tuple(range(i, i + self.p))})
+        if tr == "Kmer" and name == "empty":
+            return Opaque("P", {"pmer"}, {"at": None, "bases": None, "sentinel": True})
         if tr == "Kmer" and name == "extend_right":
             k = recv(it, args[0])
             b = [t for t in tags_of(args[1]) if t.startswith("b:")]
@@ -226,11 +228,6 @@ def scan_tables(F, rep, rule="C07.2"):
                 problems.append("%s: a p-mer made of non-consecutive bases %s is scored (rolling reads the wrong base)" % (cfg, h.obs["scored-non-window"][0]))
                 continue
             atoms = ["s%d" % j for j in range(m - p + 1)]
-            env = h.find_model(atoms, lambda e: True, bound=len(atoms))
-            if env is None:
-                inc.append("%s: no model for the explored score ordering" % cfg)
-                continue
-            sc = [env["s%d" % j] for j in range(m - p + 1)]
             if not isinstance(out, VecV):
                 inc.append("%s: result %r" % (cfg, out))
                 continue
@@ -246,9 +243,14 @@ def scan_tables(F, rep, rule="C07.2"):
             if bad or any(x is None for iv in ivs for x in iv[:3]):
                 inc.append("%s: interval fields not concrete" % cfg)
                 continue
-            msg = check_partition(ivs, sc, m, k, p)
-            if msg:
-                problems.append("%s with p-mer scores %s: intervals (start,len,minimizer_pos) %s — %s" % (cfg, sc, [iv[:3] for iv in ivs], msg))
+            # the intervals are fixed on this path; the scores are any values consistent with the comparisons the code made (scores it never
+            # looked at are free): look for consistent scores under which the intervals break a clause of the statement
+            bad_env = h.find_model(atoms, lambda e: check_partition(ivs, [e[a_] for a_ in atoms], m, k, p) is not None, bound=len(atoms))
+            if bad_env is not None:
+                sc = [bad_env[a_] for a_ in atoms]
+                problems.append("%s with p-mer scores %s: intervals (start,len,minimizer_pos) %s — %s" % (cfg, sc, [iv[:3] for iv in ivs], check_partition(ivs, sc, m, k, p)))
+            elif h.find_model(atoms, lambda e: True, bound=len(atoms)) is None:
+                inc.append("%s: no model for the explored score ordering" % cfg)
     if problems:
         rep.violated(rule, "scan", "Scanner::scan: %s" % problems[0], site=F.site(body, body["line"]), witness={"kind": "row", "count": len(problems)})
     elif inc:
@@ -447,6 +449,104 @@ def cast_guards(F, rep, rule="C07.6"):
                           "lets the value reach 2^%d" % (n, w, len(dom), [C.show(gd[1])[:60] for gd in dom], w))
     if n == 0:
         rep.holds(rule, "scan/no-narrowing-casts", "Scanner::scan contains no narrowing `as` cast", nontrivial=False)
+
+
+def capacity_guard(F, rep, rule="C08.2"):
+    """msp_sequence packs pieces of up to 2k-p bases into the caller's container type: the assertion(s) on V::max_len() that dominate
+    the packing must refuse every (k, p, max_len) with max_len < 2k-p.  The guard formulas are evaluated on a boundary grid."""
+    body = F.fns.get("msp::msp_sequence")
+    if body is None:
+        return
+    g = C.CFG(body)
+    d = C.Defs(body)
+    M64 = (1 << 64) - 1
+
+    class Unknown(Exception):
+        pass
+
+    def ev(e, env):
+        if not isinstance(e, tuple):
+            raise Unknown(repr(e))
+        if e[0] == "const" and isinstance(e[1], int):
+            return e[1]
+        if e[0] == "param" and len(e) >= 3 and e[2] == "k":
+            return env["k"]
+        if e[0] == "call":
+            if e[1].endswith("max_len"):
+                return env["max_len"]
+            if e[1].endswith("Kmer::k"):
+                return env["p"]
+            raise Unknown(e[1])
+        if e[0] in ("deref", "ref", "copy", "move", "use", "cast") and len(e) >= 2:
+            return ev(e[1], env)
+        if e[0] == "bin":
+            op = e[1]
+            x, y = ev(e[2], env), ev(e[3], env)
+            if op.startswith("Add"):
+                return (x + y) & M64
+            if op.startswith("Sub"):
+                return (x - y) & M64
+            if op.startswith("Mul"):
+                return (x * y) & M64
+            if op.startswith("Shl"):
+                return (x << y) & M64 if y < 64 else 0
+            if op.startswith("Shr"):
+                return x >> y if y < 64 else 0
+            if op == "Div" and y:
+                return x // y
+            if op in ("Lt", "Le", "Gt", "Ge", "Eq", "Ne"):
+                return {"Lt": x < y, "Le": x <= y, "Gt": x > y, "Ge": x >= y, "Eq": x == y, "Ne": x != y}[op]
+            raise Unknown(op)
+        raise Unknown(e[0])
+    guards = []
+    for bi in g.reach0:
+        t = body["blocks"][bi]["t"]
+        if t.get("k") != "switch":
+            continue
+        edges = [(tv, tb) for tv, tb in t["targets"]] + [(None, t["otherwise"])]
+        for tv, tb in edges:
+            tt = body["blocks"][tb]["t"]
+            fr = tt["f"].get("const", {}).get("fn") if tt.get("k") == "call" and "const" in tt["f"] else None
+            if fr and (fr.get("path", "").startswith("core::panicking") or "panic" in fr.get("path", "")):
+                e = d.expr_operand(t["o"])
+                if "max_len" in C.show(e):
+                    guards.append((e, tv, [v for v, b2 in edges if b2 != tb]))
+    key = "piece-capacity"
+    if not guards:
+        rep.inconclusive(rule, key, "msp_sequence has no assertion on V::max_len() in its own body: that pieces of 2k-p bases fit the container is not decided here")
+        return
+    rep.evaluations += 1
+    for k in (17, 33, 31, 32, 16, 5, 3, 2, 1, 100, 1000):
+        for p in (5, 8, 3, 2, 1, 16, 31, 32):
+            if p > k:
+                continue
+            need = 2 * k - p
+            for ml in (need - 2, need - 1):
+                if ml < 0:
+                    continue
+                env = {"k": k, "p": p, "max_len": ml}
+                ok = True
+                unknown = False
+                for e, tv, others in guards:
+                    try:
+                        v = int(ev(e, env))
+                    except Unknown:
+                        unknown = True
+                        continue
+                    passes = (v in [o for o in others if o is not None]) if tv is None else (v != tv)
+                    if not passes:
+                        ok = False
+                        break
+                if ok and not unknown:
+                    rep.violated(rule, key, "msp_sequence accepts k=%d, p=%d with a container of capacity max_len=%d: the assertion(s) %s pass, but a piece can be "
+                                 "2k-p = %d bases long — it does not fit (fixed-size containers are silently corrupted)" % (
+                                     k, p, ml, [C.show(x[0])[:80] for x in guards], need), site=F.site(body, body["line"]),
+                                 witness={"kind": "guard", "params": env})
+                    return
+                if ok and unknown:
+                    rep.inconclusive(rule, key, "an assertion on max_len is not a formula over k, p and max_len: %s" % [C.show(x[0])[:100] for x in guards])
+                    return
+    rep.holds(rule, key, "the capacity assertion(s) %s refuse every (k, p, max_len) of the boundary grid with max_len < 2k-p" % [C.show(x[0])[:80] for x in guards])
 
 
 # =========================================================================== C08 shard assignment
